@@ -542,11 +542,17 @@ func (m *Model) Analyze(items []*Item, params []Param) (*PMap, []Reason) {
 		if len(itemReasons(it)) > 0 {
 			continue
 		}
+		pm.add(&Entry{T: it.T, Kind: SBind, Item: it, Conc: it.Conc, Direct: it}, &reasons)
+	}
+	// "the set in which the binding appears also provides C": judged once every binding is registered, so that
+	// the verdict cannot depend on the order of the arguments (C may itself be an interface bound in this set).
+	for _, it := range items {
+		if it.Kind != IBind || len(itemReasons(it)) > 0 {
+			continue
+		}
 		if _, ok := pm.M[it.Conc.Key()]; !ok {
 			reasons = append(reasons, Reason{"bind-unprovided", it.Conc.Key()})
-			// still register the interface so that later analysis does not also call it missing
 		}
-		pm.add(&Entry{T: it.T, Kind: SBind, Item: it, Conc: it.Conc, Direct: it}, &reasons)
 	}
 	if hasCycle(pm) {
 		reasons = append(reasons, Reason{"cycle", ""})
